@@ -40,7 +40,7 @@ def checkNode (S : Spec) (P : Prog) (c : Cert) (a : Ann) (n : Node) : Bool :=
      -- the error edge is unconstrained: the transport is broken, nothing is written any more
    | .unlock m nx => (m != S.L || !o) && (isOpen a nx == o)
    | .spawn e nx => !isOpen a e && (isOpen a nx == o)
-   | .done _ => !o
+   | .done _ => true     -- a thread may stop inside a bracket (an abandoned message): the lock stays held
    | i => i.succs.all (fun s => isOpen a s == o))
 
 def check (S : Spec) (P : Prog) (c : Cert) (a : Ann) : Bool :=
@@ -68,6 +68,191 @@ def scan (S : Spec) : List (Nat × Nat) → Option (Option Nat) → Option (Opti
 bracket is allowed: its writer is still at work, or the transport broke). -/
 def WellBracketed (S : Spec) (wire : List (Nat × Nat)) : Prop := ∃ st, scan S wire (some none) = some st
 
+/-! ### helper lemmas -/
+
+theorem scan_none (S : Spec) (w : List (Nat × Nat)) : scan S w none = none := by
+  cases w with
+  | nil => rfl
+  | cons p r => obtain ⟨t, k⟩ := p; rfl
+
+theorem scan_append (S : Spec) (w1 w2 : List (Nat × Nat)) :
+    ∀ st, scan S (w1 ++ w2) st = scan S w2 (scan S w1 st) := by
+  induction w1 with
+  | nil => intro st; rfl
+  | cons p r ih =>
+    intro st
+    obtain ⟨t, k⟩ := p
+    cases st with
+    | none => simp [scan, scan_none]
+    | some cur =>
+      simp only [List.cons_append, scan]
+      cases S.cls k <;> simp only [] <;> (try split) <;> simp [ih, scan_none]
+
+/-- the invariant (exactly the statement of `sound`). -/
+def Inv (S : Spec) (a : Ann) (g : G) : Prop :=
+  ∃ st, scan S g.wire (some none) = some st ∧
+    (g.broken = false → ∀ t, st = some t ↔ ∃ n, g.pcs[t]? = some n ∧ isOpen a n = true)
+
+theorem open_set (a : Ann) (pcs : List Node) (t n ok : Nat) (hpc : pcs[t]? = some n) (t' : Nat) :
+    (∃ n', (pcs.set t ok)[t']? = some n' ∧ isOpen a n' = true) ↔
+      (if t' = t then isOpen a ok = true else ∃ n', pcs[t']? = some n' ∧ isOpen a n' = true) := by
+  have hlt : t < pcs.length := (List.getElem?_eq_some_iff.1 hpc).1
+  by_cases h : t' = t
+  · subst h; simp [hlt]
+  · have h' : ¬ t = t' := fun e => h e.symm
+    simp [h, h']
+
+theorem open_push (a : Ann) (pcs : List Node) (e : Nat) (he : isOpen a e = false) (t' : Nat) :
+    (∃ n', (pcs ++ [e])[t']? = some n' ∧ isOpen a n' = true) ↔
+      (∃ n', pcs[t']? = some n' ∧ isOpen a n' = true) := by
+  by_cases h : t' < pcs.length
+  · simp [List.getElem?_append_left h]
+  · have h1 : pcs.length ≤ t' := Nat.le_of_not_lt h
+    have h2 : pcs[t']? = none := List.getElem?_eq_none h1
+    rw [List.getElem?_append_right h1, h2]
+    constructor
+    · rintro ⟨n', hn, ho⟩
+      by_cases h3 : t' - pcs.length = 0
+      · rw [h3] at hn; simp at hn; subst hn; rw [he] at ho; cases ho
+      · have : ([e] : List Nat)[t' - pcs.length]? = none := by
+          apply List.getElem?_eq_none; simp; omega
+        rw [this] at hn; cases hn
+    · rintro ⟨n', hn, _⟩; cases hn
+
+theorem Inv.move_same {S : Spec} {a : Ann} {g g' : G} {t n n' : Nat} (hinv : Inv S a g)
+    (hpc : g.pcs[t]? = some n) (ho : isOpen a n' = isOpen a n) (hw : g'.wire = g.wire)
+    (hb : g'.broken = false → g.broken = false) (hp : g'.pcs = g.pcs.set t n') : Inv S a g' := by
+  obtain ⟨st, hs, hiff⟩ := hinv
+  refine ⟨st, by rw [hw]; exact hs, ?_⟩
+  intro hb' t'
+  rw [hiff (hb hb') t', hp, open_set a g.pcs t n n' hpc t']
+  by_cases h : t' = t
+  · subst h; simp [hpc, ho]
+  · simp [h]
+
+theorem Inv.push {S : Spec} {a : Ann} {g g' : G} {e : Nat} (hinv : Inv S a g)
+    (he : isOpen a e = false) (hw : g'.wire = g.wire)
+    (hb : g'.broken = false → g.broken = false) (hp : g'.pcs = g.pcs ++ [e]) : Inv S a g' := by
+  obtain ⟨st, hs, hiff⟩ := hinv
+  refine ⟨st, by rw [hw]; exact hs, ?_⟩
+  intro hb' t'
+  rw [hiff (hb hb') t', hp, open_push a g.pcs e he t']
+
+theorem Inv.broken {S : Spec} {a : Ann} {g g' : G} (hinv : Inv S a g)
+    (hw : g'.wire = g.wire) (hb : g'.broken = true) : Inv S a g' := by
+  obtain ⟨st, hs, _⟩ := hinv
+  refine ⟨st, by rw [hw]; exact hs, ?_⟩
+  intro hb'; rw [hb] at hb'; cases hb'
+
+theorem Inv.wrOk {S : Spec} {a : Ann} {g : G} {t n k ok : Nat} {hasL : Bool} (hinv : Inv S a g)
+    (hbr : g.broken = false) (hpc : g.pcs[t]? = some n)
+    (hex : hasL = true → ∀ t' n', g.pcs[t']? = some n' → isOpen a n' = true → t' = t)
+    (hc : (match S.cls k with
+      | .opens => !isOpen a n && hasL && isOpen a ok
+      | .mid => isOpen a n && isOpen a ok
+      | .closes => isOpen a n && !isOpen a ok
+      | .single => !isOpen a n && hasL && !isOpen a ok
+      | .other => isOpen a ok == isOpen a n) = true) :
+    Inv S a { (g.move t ok) with wire := g.wire ++ [(t, k)] } := by
+  obtain ⟨st, hs, hiff⟩ := hinv
+  have hiff := hiff hbr
+  -- facts about the state before the step
+  have hopen : isOpen a n = true → st = some t := fun ho => (hiff t).2 ⟨n, hpc, ho⟩
+  have hclosed : isOpen a n = false → hasL = true → st = none := by
+    intro ho hl
+    cases st with
+    | none => rfl
+    | some t' =>
+      obtain ⟨n', hn', ho'⟩ := (hiff t').1 rfl
+      have := hex hl t' n' hn' ho'
+      subst this
+      rw [hpc] at hn'; cases hn'
+      rw [ho] at ho'; cases ho'
+  show ∃ st', scan S (g.wire ++ [(t, k)]) (some none) = some st' ∧
+    (g.broken = false → ∀ t', st' = some t' ↔
+      ∃ n', (g.pcs.set t ok)[t']? = some n' ∧ isOpen a n' = true)
+  rw [scan_append, hs]
+  simp only [scan]
+  cases hk : S.cls k <;> simp only [hk] at hc ⊢
+  · -- opens
+    simp only [Bool.and_eq_true, Bool.not_eq_true'] at hc
+    obtain ⟨⟨h1, h2⟩, h3⟩ := hc
+    have hst := hclosed h1 h2
+    subst hst
+    refine ⟨some t, by simp, fun _ t' => ?_⟩
+    rw [open_set a g.pcs t n ok hpc t']
+    by_cases h : t' = t
+    · subst h; simp [h3]
+    · simp only [h, if_false]
+      rw [← hiff t']
+      constructor
+      · intro e; cases e; exact absurd rfl h
+      · intro e; cases e
+  · -- mid
+    simp only [Bool.and_eq_true] at hc
+    obtain ⟨h1, h3⟩ := hc
+    have hst := hopen h1
+    subst hst
+    refine ⟨some t, by simp, fun _ t' => ?_⟩
+    rw [open_set a g.pcs t n ok hpc t']
+    by_cases h : t' = t
+    · subst h; simp [h3]
+    · simp only [h, if_false]
+      exact hiff t'
+  · -- closes
+    simp only [Bool.and_eq_true, Bool.not_eq_true'] at hc
+    obtain ⟨h1, h3⟩ := hc
+    have hst := hopen h1
+    subst hst
+    refine ⟨none, by simp, fun _ t' => ?_⟩
+    rw [open_set a g.pcs t n ok hpc t']
+    by_cases h : t' = t
+    · subst h; simp [h3]
+    · simp only [h, if_false]
+      rw [← hiff t']
+      constructor
+      · intro e; cases e
+      · intro e; cases e; exact absurd rfl h
+  · -- single
+    simp only [Bool.and_eq_true, Bool.not_eq_true'] at hc
+    obtain ⟨⟨h1, h2⟩, h3⟩ := hc
+    have hst := hclosed h1 h2
+    subst hst
+    refine ⟨none, by simp, fun _ t' => ?_⟩
+    rw [open_set a g.pcs t n ok hpc t']
+    by_cases h : t' = t
+    · subst h; simp [h3]
+    · simp only [h, if_false]
+      exact hiff t'
+  · -- other
+    have h3 : isOpen a ok = isOpen a n := by simpa using hc
+    refine ⟨st, rfl, fun _ t' => ?_⟩
+    rw [hiff t', open_set a g.pcs t n ok hpc t']
+    by_cases h : t' = t
+    · subst h; simp [hpc, h3]
+    · simp [h]
+
+theorem open_lt {P : Prog} {a : Ann} (hA : a.length ≤ P.code.length) {n : Nat}
+    (ho : isOpen a n = true) : n < P.code.length := by
+  apply Nat.lt_of_not_le
+  intro hge
+  have : isOpen a n = false := by
+    unfold isOpen
+    rw [List.getD_eq_getElem?_getD, List.getElem?_eq_none (Nat.le_trans hA hge)]
+    rfl
+  rw [this] at ho; cases ho
+
+theorem tstep_lt {P : Prog} {t n : Nat} {g g' : G} (hs : TStep t (P.at n) g g') :
+    n < P.code.length := by
+  apply Nat.lt_of_not_le
+  intro hge
+  have : P.at n = .done false := by
+    unfold Prog.at
+    rw [List.getD_eq_getElem?_getD, List.getElem?_eq_none hge]
+    rfl
+  rw [this] at hs
+  cases hs
+
 /-- **soundness for every program**: if the certificate and annotation check, then in every
 reachable state — any number of threads, any interleaving — the wire is well bracketed, and while
 the transport works the open bracket belongs to exactly the thread the annotation says is inside one. -/
@@ -75,10 +260,62 @@ theorem sound (S : Spec) (P : Prog) (c : Cert) (a : Ann) (h : check S P c a = tr
     ∀ g, Reach P g →
       ∃ st, scan S g.wire (some none) = some st ∧
         (g.broken = false → ∀ t, st = some t ↔ ∃ n, g.pcs[t]? = some n ∧ isOpen a n = true) := by
-  sorry
+  unfold check at h
+  simp only [Bool.and_eq_true, List.all_eq_true, List.mem_range, decide_eq_true_eq,
+    Bool.not_eq_true'] at h
+  obtain ⟨⟨⟨⟨hL, hN⟩, hE⟩, hB⟩, hA⟩ := h
+  intro g hr
+  show Inv S a g
+  induction hr with
+  | init =>
+    refine ⟨none, rfl, fun _ t => ?_⟩
+    constructor
+    · intro e; cases e
+    · rintro ⟨n, hn, ho⟩
+      have hn : P.boot[t]? = some n := hn
+      have := hB n (List.mem_of_getElem? hn)
+      rw [this] at ho; cases ho
+  | step g g' hr hs ih =>
+    cases hs with
+    | start e _ he => exact ih.push (hE e he) rfl (fun x => x) rfl
+    | thread t n _ _ hpc hts =>
+      have hlt := tstep_lt hts
+      have hcn := hN n hlt
+      unfold checkNode at hcn
+      simp only [Bool.and_eq_true] at hcn
+      obtain ⟨hfirst, hcn⟩ := hcn
+      -- exclusivity of open threads w.r.t. holders of S.L
+      have hex : (held c n).contains S.L = true →
+          ∀ t' n', g.pcs[t']? = some n' → isOpen a n' = true → t' = t := by
+        intro hl t' n' hn' ho'
+        have hlt' := open_lt hA ho'
+        have hc' := hN n' hlt'
+        unfold checkNode at hc'
+        simp only [Bool.and_eq_true] at hc'
+        have h1 := hc'.1
+        rw [ho'] at h1
+        have h1 : (held c n').contains S.L = true := by simpa using h1
+        exact Lockset.exclusive P c hL g hr t' t n' n S.L hn' hpc
+          (by simpa using h1) (by simpa using hl)
+      generalize P.at n = instr at hcn hts
+      cases hts with
+      | wrOk k ok err _ hbr => exact ih.wrOk hbr hpc hex hcn
+      | wrErr k ok err _ => exact ih.broken rfl rfl
+      | spawn e nx _ =>
+        simp only [Bool.and_eq_true, Bool.not_eq_true', beq_iff_eq] at hcn
+        have h1 : Inv S a (g.move t nx) := ih.move_same hpc hcn.2 rfl (fun x => x) rfl
+        exact h1.push hcn.1 rfl (fun x => x) rfl
+      | _ =>
+        simp [Instr.succs] at hcn
+        first
+          | exact ih.move_same hpc hcn rfl (fun x => x) rfl
+          | exact ih.move_same hpc hcn.1 rfl (fun x => x) rfl
+          | exact ih.move_same hpc hcn.2 rfl (fun x => x) rfl
+          | exact ih.move_same hpc (hcn _ (by assumption)) rfl (fun x => x) rfl
 
 theorem wellBracketed (S : Spec) (P : Prog) (c : Cert) (a : Ann) (h : check S P c a = true)
     (g : G) (hr : Reach P g) : WellBracketed S g.wire := by
-  sorry
+  obtain ⟨st, hs, _⟩ := sound S P c a h g hr
+  exact ⟨st, hs⟩
 
 end WS.CIR.Bracket
